@@ -261,7 +261,10 @@ func rowsrestSymbol(r *Rng, f gozxing.BarcodeFormat) ([]bool, string) {
 // for the 1-1-1 guards, followed by arbitrary runs
 func rowsrestTieRow(r *Rng) []bool {
 	k := r.Range(1, 4)
-	ties := [][]int{{1, 4, 5}, {5, 4, 1}, {4, 1, 5}, {5, 1, 4}, {1, 5, 4}, {4, 5, 1}, {3, 3, 3}, {2, 5, 3}, {17, 10, 3}, {10, 3, 17}}
+	// (28,17,5), (25,20,5) …: total 50, one run exactly total/10 — the individual-variance limit 0.7·unit is met exactly; exact
+	// arithmetic accepts the guard, float64 (0.7 is not a binary fraction) refuses it
+	ties := [][]int{{1, 4, 5}, {5, 4, 1}, {4, 1, 5}, {5, 1, 4}, {1, 5, 4}, {4, 5, 1}, {3, 3, 3}, {2, 5, 3}, {17, 10, 3}, {10, 3, 17},
+		{28, 17, 5}, {28, 5, 17}, {25, 20, 5}, {24, 5, 21}, {5, 22, 23}, {17, 28, 5}, {56, 34, 10}, {50, 10, 40}, {13, 60, 57}}
 	t := ties[r.Intn(len(ties))]
 	ws := []int{r.Range(3, 12) * k}
 	for _, x := range t {
@@ -408,6 +411,16 @@ func rowsrestCall(c *Ctx, rd rowsrestReader, h rowsrestHints, rn int, bs []bool,
 	goOut := "T[" + strings.Join(trace, ";") + "] " + out
 	b2i := map[bool]int{false: 0, true: 1}
 	c.Cmp("rowsrest-upc-row", fmt.Sprintf("c06rows upc row %s %d %d %s %d %s", rd.name, rn, b2i[h.cb], h.ext, b2i[h.ua], bitsStr(bs)), goOut)
+	if class == "variance-tie" && !strings.HasPrefix(rd.name, "m:") {
+		mo := c.Model([]string{fmt.Sprintf("c06rows upc rowx %s %d %d %s %d %s", rd.name, rn, b2i[h.cb], h.ext, b2i[h.ua], bitsStr(bs))})
+		if len(mo) == 1 && mo[0] != "NO-DRIVER" {
+			if mo[0] == goOut {
+				c.Note("rowsrest-upc:tie-rows:exact-arithmetic-agrees-with-float64")
+			} else {
+				c.Note("rowsrest-upc:tie-rows:exact-arithmetic-DIFFERS-from-float64 (why the driver runs IEEE binary64)")
+			}
+		}
+	}
 	// the row must come back unchanged
 	for i, b := range bs {
 		if row.Get(i) != b {
